@@ -296,8 +296,8 @@ def output_root(ctx):
     # 6. intermediate directory of link steps is a relative name below the
     # (builddir-rooted) output name
     f = F.fn('bfg9000.builtins.link:Link.convert_args')
-    ds = [e for e in F.effects(f, lambda e: Q.kwarg(e.call, 'directory')
-                               is not None, depth=0)]
+    ds = [e for e in F.effects(f, lambda e: bool(e.kw_exprs('directory')),
+                               depth=0)]
     ok = bool(ds) and all(has_call(e.arg(kw='directory'), '__name') and
                           param_of(e.arg(kw='directory'), 'name')
                           for e in ds)
